@@ -1,6 +1,9 @@
 /* C01: PMutex / PSpinLock under the controlled scheduler.
  * harness args: <kind m|s> <threads> <rounds>        (excl)
  *               <kind m|s>                           (mix, free)
+ *               <kind m|s>                           (hold: the holder stays inside while a waiter keeps trying; run with -S <attempts> -p 0:
+ *                                                     the waiter is not parked before it has made that many fruitless attempts, so exclusion is
+ *                                                     checked for every number of consecutive failed attempts up to the bound)
  */
 #include <plibsys.h>
 #include "mc.h"
@@ -43,6 +46,18 @@ static void *excl_thread(void *arg)
         enter_cs("lock");
         do_unlock();
     }
+    return NULL;
+}
+
+/* hold */
+static int hold_inside;
+static void *hold_waiter(void *arg)
+{
+    (void)arg;
+    if (!do_lock()) mc_fail("C01", "lock-returned-false", "lock call returned FALSE");
+    if (hold_inside) { char sig[64]; snprintf(sig, sizeof sig, "%s/exclusion/lock-after-long-wait", kn()); mc_fail("C01", sig, "lock returned success after a long wait while the holder is still inside the critical section"); }
+    enter_cs("lock");
+    do_unlock();
     return NULL;
 }
 
@@ -111,6 +126,26 @@ static void h_mix(int argc, char **argv)
     mc_outcome("trylock=%d counter=%ld", b_result, counter);
 }
 
+static void setup(void); static void teardown(void);
+static void h_hold(int argc, char **argv)
+{
+    int t, i;
+    KIND = argc > 0 ? argv[0][0] : 's';
+    setup();
+    mc_name(&hold_inside, sizeof hold_inside, "harness.hold_inside");
+    if (!do_lock()) mc_fail("C01", "lock-returned-false", "lock on a free lock returned FALSE");
+    hold_inside = 1;
+    t = mc_thread_create(hold_waiter, NULL);
+    for (i = 0; i < 4; i++) p_uthread_yield();       /* the waiter runs until it is parked (after -S attempts) or yields by itself; the holder stays inside */
+    hold_inside = 0;
+    do_unlock();
+    mc_thread_join(t);
+    if (entered_total != 1) mc_fail("C01", "hold/waiter-did-not-enter", "the waiter did not get the lock after the holder released it");
+    mc_nontrivial(0);
+    mc_outcome("entered=%d", entered_total);
+    teardown();
+}
+
 /* free: single thread: trylock on a fresh lock TRUE, second trylock FALSE, unlock, trylock TRUE */
 static void h_free(int argc, char **argv)
 {
@@ -134,5 +169,6 @@ static const McHarness HS[] = {
     {"excl", h_excl, "<m|s> <threads> <rounds>: lock; cs; unlock"},
     {"mix", h_mix, "<m|s>: two lockers and one trylocker"},
     {"free", h_free, "<m|s>: single thread trylock semantics"},
+    {"hold", h_hold, "<m|s>: holder stays inside while a waiter makes -S fruitless attempts"},
 };
-int main(int argc, char **argv) { return mc_main(argc, argv, HS, 3); }
+int main(int argc, char **argv) { return mc_main(argc, argv, HS, (int)(sizeof HS / sizeof HS[0])); }
